@@ -214,6 +214,58 @@ func TestCheck(t *testing.T) {
 		}
 		r.Merge(lc)
 	})
-	r.Finish("repetition_checks", "second_occurrences", "third_occurrences", "fourth_or_later_occurrences", "same_placement_but_different_rights_or_ep",
+	// transient / suppressed e.p. rights: start one ply before a double push that lands next to an
+	// enemy pawn, force that push, then oscillate so that the position after the push recurs.
+	pushes := r.N(60000, 1200000)
+	ev.Parallel(pushes/100, func(wk, i int) {
+		lc := lcs[wk]
+		rng := r.RNG("c10-push", i)
+		for k := 0; k < 100; k++ {
+			start, ok := gen.PrePush(rng)
+			if !ok {
+				continue
+			}
+			var cands []ref.Move
+			for _, m := range start.Legal() {
+				v := start.Sq[m.From()]
+				if (v == ref.P || v == -ref.P) && (m.To()-m.From() == 16 || m.From()-m.To() == 16) {
+					to := m.To()
+					for _, df := range []int{-1, 1} {
+						f := to%8 + df
+						if f >= 0 && f < 8 && start.Sq[(to/8)*8+f] == -v {
+							cands = append(cands, m)
+							break
+						}
+					}
+				}
+			}
+			if len(cands) == 0 {
+				continue
+			}
+			m := cands[rng.IntN(len(cands))]
+			raw := start.Make(m)
+			after := raw.Normalised()
+			steps := gen.Shuffle(rng, after, 4+rng.IntN(12), 0.9, 150)
+			ms := []string{m.String()}
+			recur := false
+			for _, s := range steps {
+				ms = append(ms, s.Move.String())
+				if s.Pos.Key() == after.Key() {
+					recur = true
+				}
+			}
+			if recur {
+				if after.EP < 0 {
+					lc.C["recurrences_of_position_after_push_with_suppressed_ep"]++
+				} else {
+					lc.C["recurrences_of_position_after_push_with_ep_right_attempted"]++
+				}
+			}
+			history(r, lc, "forced-push", start, false, ms, false)
+			lc.C["forced_push_histories"]++
+		}
+		r.Merge(lc)
+	})
+	r.Finish("recurrences_of_position_after_push_with_suppressed_ep", "repetition_checks", "second_occurrences", "third_occurrences", "fourth_or_later_occurrences", "same_placement_but_different_rights_or_ep",
 		"moves_with_suppressed_ep_target", "positions_with_ep_right", "uci_histories", "uci_roots_final_by_repetition")
 }
